@@ -315,6 +315,9 @@ def check_dir(name, out, lang, incs, objs, res, have_objects=True):
         # C counterpart: same name modulo case, or 's_' + name
         cands = [k for k in cs.records if k.lower() in (rname.lower(), "s_" + rname.lower())]
         if not cands:
+            # C++ libraries: the C copy of the struct carries the library prefix (docs/structs.rst: {C_prefix}{name})
+            cands = [k for k in cs.records if re.fullmatch(r"(s_)?[a-z0-9]+_" + re.escape(rname.lower()), k.lower())]
+        if not cands:
             st["derived_types_without_c_struct"] = st.get("derived_types_without_c_struct", 0) + 1
             continue
         cf = cs.records[cands[0]]
@@ -381,6 +384,59 @@ def run_generated(case):
         res["violations"] = []      # compile failures are C05's business
         res["user_headers"] = [lib["name"] + (".hpp" if lib["language"] == "c++" else ".h")]
         check_dir(lib["name"], out, lib["language"], ["-I", engine.NATIVE], objs or [], res, have_objects=bool(objs))
+        return res
+    finally:
+        if cwd:
+            common.rmtree(cwd)
+
+
+STRUCT_H = """#ifndef SD_H
+#define SD_H
+struct Particle { int id; double weight; int charge; float pos[3]; long tag; };
+typedef struct Particle Particle;
+#ifdef __cplusplus
+extern "C" {
+#endif
+int particle_charge(const Particle *p);
+#ifdef __cplusplus
+}
+#endif
+#endif
+"""
+
+
+def run_struct_forms(case):
+    """A struct written member by member (nested declarations), with wrap flags / blocks on individual members:
+    the bind(C) derived type is a memory layout, so it must keep every field whatever the member's wrap flags say."""
+    from .. import shroudrun
+    lang, form = case["lang"], case["form"]
+    res = {"violations": [], "stats": {}, "name": "sd-%s-%s" % (lang, form)}
+    members = [{"decl": "int id"}, {"decl": "double weight"}, {"decl": "int charge"}, {"decl": "float pos[3]"}, {"decl": "long tag"}]
+    if form == "member-fortran-off":
+        members[1]["options"] = {"wrap_fortran": False}
+    elif form == "member-python-off":
+        members[2]["options"] = {"wrap_python": False, "wrap_lua": False}
+    elif form == "block-fortran-off":
+        members = [members[0], {"block": True, "options": {"wrap_fortran": False}, "declarations": members[1:3]}] + members[3:]
+    elif form == "member-c-off":
+        members[3]["options"] = {"wrap_c": False, "wrap_fortran": False}
+    y = {"library": "sd", "cxx_header": "sd.h", "language": lang,
+         "options": {"wrap_c": True, "wrap_fortran": True, "wrap_python": False, "wrap_lua": False},
+         "declarations": [{"decl": "struct Particle", "declarations": members}, {"decl": "int particle_charge(const Particle *p)"}]}
+    sp = {"name": res["name"], "files": {"work/sd.yaml": workloads.dump_yaml(y)}, "dirs": ["out"],
+          "argv": ["--outdir", "out", "--logdir", "out", "work/sd.yaml"], "monitors": [], "keep": True}
+    rr = shroudrun.run(sp)
+    cwd = rr.get("cwd")
+    try:
+        if rr.get("exc") or rr.get("exit") != 0:
+            res["rejected"] = True
+            res["why"] = engine.reject_mech(rr)[1][:300]
+            return res
+        out = os.path.join(cwd, "out")
+        open(os.path.join(out, "sd.h"), "w").write(STRUCT_H)
+        res["user_headers"] = ["sd.h"]
+        check_dir(res["name"], out, lang, [], [], res, have_objects=False)
+        res["unreachable"] = [u for u in res.get("unreachable", []) if "no C declaration visible" not in u]
         return res
     finally:
         if cwd:
@@ -461,6 +517,18 @@ def main(rec):
                              namespace=r.choice([None, "outer"]) if lang == "c++" else None)
             cases.append({"lib": lib})
     res = pool.run_cases("vf.checks.c04", cases, func="run_generated", timeout=1800)
+    scases = [{"lang": lg, "form": fm} for lg in ("c", "c++") for fm in ("plain", "member-fortran-off", "member-python-off", "block-fortran-off", "member-c-off")]
+    sres = pool.run_cases("vf.checks.c04", scases, func="run_struct_forms", timeout=600)
+    for c, rr in zip(scases, sres):
+        if "stats" not in rr:
+            workloads.bad_run(rec, {"name": "sd"}, rr)
+            continue
+        if rr.get("rejected"):
+            rec.count("struct_forms_rejected_by_shroud")
+            continue
+        rec.merge_stats({"struct_forms_" + k: v for k, v in rr["stats"].items()})
+        for v in rr["violations"]:
+            rec.violation("struct-form:%s:%s" % (c["form"], v["mech"]), v["detail"], c)
     ccases = [{"name": c["name"]} for c in corpus.configs()]
     cres = pool.run_cases("vf.checks.c04", ccases, func="run_corpus", timeout=1800)
     for c, rr in list(zip(cases, res)) + list(zip(ccases, cres)):
